@@ -107,6 +107,8 @@ pub struct MmapStorage {
     file: File,
     mmap: MmapMut,
     page_count: u32,
+    #[cfg(kahflane_turdb_verif)]
+    verif_path: std::path::PathBuf,
 }
 
 impl MmapStorage {
@@ -156,6 +158,8 @@ impl MmapStorage {
             file,
             mmap,
             page_count,
+            #[cfg(kahflane_turdb_verif)]
+            verif_path: path.to_path_buf(),
         })
     }
 
@@ -191,10 +195,14 @@ impl MmapStorage {
                 .wrap_err_with(|| format!("failed to memory-map '{}'", path.display()))?
         };
 
+        #[cfg(kahflane_turdb_verif)]
+        crate::verif_hooks::io_event("mmap_create", &path.to_string_lossy(), initial_page_count as u64, 0);
         Ok(Self {
             file,
             mmap,
             page_count: initial_page_count,
+            #[cfg(kahflane_turdb_verif)]
+            verif_path: path.to_path_buf(),
         })
     }
 
@@ -219,6 +227,8 @@ impl MmapStorage {
         );
 
         let offset = page_no as usize * PAGE_SIZE;
+        #[cfg(kahflane_turdb_verif)]
+        crate::verif_hooks::io_event("page_mut", &self.verif_path.to_string_lossy(), page_no as u64, 0);
         Ok(&mut self.mmap[offset..offset + PAGE_SIZE])
     }
 
@@ -243,11 +253,15 @@ impl MmapStorage {
             unsafe { MmapMut::map_mut(&self.file).wrap_err("failed to remap file after grow")? };
 
         self.page_count = new_page_count;
+        #[cfg(kahflane_turdb_verif)]
+        crate::verif_hooks::io_event("mmap_grow", &self.verif_path.to_string_lossy(), new_page_count as u64, 0);
 
         Ok(())
     }
 
     pub fn sync(&self) -> Result<()> {
+        #[cfg(kahflane_turdb_verif)]
+        let _verif_ev = crate::verif_hooks::IoEventOnDrop::new("mmap_sync", &self.verif_path.to_string_lossy(), self.page_count as u64, 0);
         self.mmap.flush().wrap_err("failed to sync mmap to disk")
     }
 
